@@ -4,14 +4,14 @@ JSON forms
   expr : ['c', 'p/q'] | ['v', name] | ['+', a, b] | ['-', a, b] | ['*', a, b]
   atom : {'k':'const','d':expr,'amps':[[ch,expr],..]} | {'k':'table','chs':[[ch,[[t,v,interp],..]],..]}
        | {'k':'point','entries':[[t,[v,..],interp],..],'chs':[ch,..]} | {'k':'multi','subs':[atom,..]}
-       | {'k':'aarith','l':atom,'op':'+'|'-','r':atom}
+       | {'k':'aarith','l':atom,'op':'+'|'-','r':atom} | {'k':'func','d':expr,'ch':ch,'a':expr,'b':expr}   (a + b*t)
   pt   : atom | {'k':'seq','subs':[..]} | {'k':'rep','n':expr,'body':pt} | {'k':'for','idx':name,'range':[e,e,e],'body':pt}
        | {'k':'map','pm':[[name,expr],..],'chm':[[ch,ch|None],..],'body':pt} | {'k':'rev','body':pt}
        | {'k':'par','body':pt,'ow':[[ch,expr],..]} | {'k':'arith','lhs':bool,'op':'+-*/','scalar':expr|{'map':[[ch,expr],..]},'body':pt}
 """
 from fractions import Fraction as F
 
-ATOMS = ('const', 'table', 'point', 'multi', 'aarith')
+ATOMS = ('const', 'table', 'point', 'multi', 'aarith', 'func')
 CHAN_POOL = ['A', 'B', 'C', 0, 1, 2]
 INTERPS = ['hold', 'jump', 'linear']
 
@@ -70,6 +70,9 @@ def free_params(n):
             s |= free_params(x)
     elif k == 'aarith':
         s = free_params(n['l']) | free_params(n['r'])
+    elif k == 'func':
+        for e in (n['d'], n['a'], n['b']):
+            expr_vars(e, s)
     elif k == 'rep':
         s = free_params(n['body']) | expr_vars(n['n'])
     elif k == 'for':
@@ -241,6 +244,8 @@ def gen_atom(ctx, chans, dur, depth_left, force=None, allow=ATOMS):
     """an atom over exactly `chans` with (fixed) duration `dur` (> 0)"""
     rng = ctx.rng
     kinds = [k for k in allow if k in ('const', 'table', 'point')]
+    if len(chans) == 1:
+        kinds += [k for k in allow if k in ('func',)]
     if len(chans) >= 2 and depth_left > 0:
         kinds += [k for k in allow if k in ('multi',)]
     if depth_left > 0:
@@ -254,6 +259,10 @@ def gen_atom(ctx, chans, dur, depth_left, force=None, allow=ATOMS):
             e, _ = value_expr(ctx, force if j == 0 else None)
             amps.append([ch, e])
         return {'k': 'const', 'd': expr_for(ctx, dur), 'amps': amps}
+    if k == 'func':       # FunctionPT with the affine expression a + b*t (b = 0 sometimes: constant after substitution)
+        a, _ = value_expr(ctx, force)
+        slope = F(rng.choice([-4, -3, -2, -1, 0, 1, 2, 3, 4, 6]), 4)
+        return {'k': 'func', 'd': expr_for(ctx, dur), 'ch': chans[0], 'a': a, 'b': expr_for(ctx, slope)}
     if k == 'table':
         chs = []
         full = rng.randrange(len(chans))
@@ -471,6 +480,8 @@ def pt_channels(n):
     if k == 'aarith':
         out = pt_channels(n['l'])
         return out + [c for c in pt_channels(n['r']) if c not in out]
+    if k == 'func':
+        return [n['ch']]
     if k == 'seq':
         return pt_channels(n['subs'][0])
     if k == 'map':
@@ -620,6 +631,47 @@ def gen_fold_case(rng):
     used = free_params(pt)
     params = {k: str(v) for k, v in env.items() if k in used}
     return {'pt': pt, 'params': params, 'cm': [], 'fold': '%s/%s/%s' % (shape, '+'.join(sorted(set(wraps))), outer)}
+
+
+# ---- small-alphabet table stream -------------------------------------------------------------------------------------
+def gen_table_case(rng, exhaustive_index=None):
+    """one table (optionally time-reversed / followed by a constant) over a SMALL alphabet: values in {0, 1, 1/2}, time
+    increments in {0, 1/2, 1}, 3-6 entries, so that repeated values / repeated times / returns to the first value (the
+    inputs of TableWaveform._validate_input's de-duplication and constant detection) are frequent"""
+    n = rng.randint(3, 6)
+    vals_pool = [F(0), F(1), F(1, 2)]
+    t = F(0) if rng.random() < 0.8 else F(1, 2)
+    entries = []
+    prev_t = None
+    for j in range(n):
+        if j > 0:
+            t = t + rng.choice([F(0), F(1, 2), F(1, 2), F(1)])
+        v = rng.choice(vals_pool) if rng.random() < 0.8 or not entries else F(entries[-1][1][1])
+        interp = rng.choice(INTERPS)
+        if interp == 'linear' and prev_t is not None and t == prev_t:
+            interp = rng.choice(['hold', 'jump'])
+        entries.append([C(t), C(v), interp])
+        prev_t = t
+    if t == 0:
+        entries[-1][0] = C(1)
+        t = F(1)
+        if entries[-1][2] == 'linear' and len(entries) >= 2 and F(entries[-2][0][1]) == 1:
+            entries[-1][2] = 'hold'
+    times = [F(e[0][1]) for e in entries]
+    triple = times.count(times[-1]) >= 3
+    ch = rng.choice(['A', 0])
+    pt = {'k': 'table', 'chs': [[ch, entries]]}
+    shape = rng.random()
+    if shape < 0.3:
+        pt = {'k': 'rev', 'body': pt}
+    elif shape < 0.45:
+        pt = {'k': 'seq', 'subs': [pt, {'k': 'const', 'd': C(1), 'amps': [[ch, C(entries[-1][1][1])]]}]}
+    elif shape < 0.55:
+        pt = {'k': 'rep', 'n': C(2), 'body': pt}
+    case = {'pt': pt, 'params': {}, 'cm': [], 'tables': True}
+    if triple:
+        case['final_triple'] = True
+    return case
 
 
 # ---- malformed stream -----------------------------------------------------------------------------------------------
